@@ -147,6 +147,7 @@ type WrapPP struct {
 	Made    []*zoo.W
 	EarlyN  map[string]int // how often the early-reference callback ran per name
 	Wrapped map[string][]*zoo.W
+	InstRaw []string // names whose registered instance was handed back by PostProcessBeforeInstantiation
 }
 
 func (w *WrapPP) Naming() string { return "wrap-pp" }
@@ -205,6 +206,12 @@ func (w *WrapPP) PostProcessAfterInitialization(c any, name string) (any, error)
 func (w *WrapPP) PostProcessBeforeInstantiation(m *component_definition.Meta, name string) (any, error) {
 	if w.Plan[name].Inst == WrapNew {
 		return w.mk(m.Raw, name, "beforeinst"), nil
+	}
+	if w.Plan[name].Inst == WrapSame {
+		// "this one is ready made": the registered instance itself is returned - the container takes it as it is
+		// (no population, no initialization methods), only the after-initialization callbacks are applied
+		w.InstRaw = append(w.InstRaw, name)
+		return m.Raw, nil
 	}
 	return nil, nil
 }
